@@ -155,8 +155,8 @@ type world struct {
 	backend  *mocktikv.RPCClient
 	pd       *simPD
 	cache    *locate.RegionCache
-	sender   *locate.RegionRequestSender
 	cli      *simClient
+	codec    apicodec.Codec
 
 	mu      sync.Mutex
 	snaps   []*topoSnap
@@ -250,7 +250,7 @@ func newWorld(s *simkit.Sim, sc *Scenario, verbose bool) (*world, error) {
 		return st != nil && st.GetState() == metapb.StoreState_Up
 	})
 	w.cli = &simClient{w: w}
-	w.sender = locate.NewRegionRequestSender(w.cache, w.cli, noopValidator{})
+	w.codec = apicodec.NewCodecV1(apicodec.ModeTxn)
 	w.hist = make([][]*opRec, len(sc.Actors))
 	return w, nil
 }
@@ -494,7 +494,7 @@ type pdRes[T any] struct {
 // pdCall parks the caller; the answer is computed when the request reaches PD (from the current
 // topology, or - if the request allows follower handling and the seed says so - from the
 // topology of k events ago) and delivered after the answer leg.
-func pdCall[T any](p *simPD, ctx context.Context, kind, arg string, opts []opt.GetRegionOption, fn func(*topoSnap) T, describe func(T) string) (T, error) {
+func pdCall[T any](p *simPD, ctx context.Context, kind, arg string, opts []opt.GetRegionOption, fn func(*topoSnap) T, describe func(T) string, metas func(T) []verKey) (T, error) {
 	w := p.w
 	var zero T
 	select {
@@ -550,8 +550,12 @@ func pdCall[T any](p *simPD, ctx context.Context, kind, arg string, opts []opt.G
 		}
 		w.sim.Count("pd." + kind)
 		d := "error"
+		var answered []verKey
 		if err == nil {
 			d = describe(v)
+			if idx != cur {
+				answered = metas(v)
+			}
 		}
 		w.tracef("PD %s follower-ok=%v answered from topology #%d (current #%d): %s", key, o.AllowFollowerHandle, idx, cur, d)
 		w.sim.Submit("resp:"+key, lat2, w.lat.U64(key+"u"), func() {
@@ -562,6 +566,21 @@ func pdCall[T any](p *simPD, ctx context.Context, kind, arg string, opts []opt.G
 			ch <- pdRes[T]{v, err}
 			synctest.Wait()
 			w.check("post " + key + " = " + d)
+			// reach probe: a stale answer whose description did not make it into the index
+			w.mu.Lock()
+			index := w.prev
+			w.mu.Unlock()
+			for _, a := range answered {
+				found := false
+				for _, e := range index {
+					found = found || (e.ID == a.id && e.Ver == a.ver)
+				}
+				if !found {
+					w.sim.Count("probe.stale-pd-description-not-installed")
+				} else {
+					w.sim.Count("probe.stale-pd-description-in-index")
+				}
+			}
 		})
 	})
 	select {
@@ -593,6 +612,21 @@ func descRegions(rs []*router.Region) string {
 	return "[" + strings.Join(parts, "; ") + "]"
 }
 
+func keysOfRegion(r *router.Region) []verKey {
+	if r == nil || r.Meta == nil {
+		return nil
+	}
+	return []verKey{{r.Meta.Id, r.Meta.RegionEpoch.GetVersion()}}
+}
+
+func keysOfRegions(rs []*router.Region) []verKey {
+	var out []verKey
+	for _, r := range rs {
+		out = append(out, keysOfRegion(r)...)
+	}
+	return out
+}
+
 func one(r *snapRegion) *router.Region {
 	if r == nil {
 		return &router.Region{}
@@ -602,19 +636,19 @@ func one(r *snapRegion) *router.Region {
 
 // GetRegion implements pd.Client.
 func (p *simPD) GetRegion(ctx context.Context, key []byte, opts ...opt.GetRegionOption) (*router.Region, error) {
-	return pdCall(p, ctx, "getregion", hex.EncodeToString(rawOf(key)), opts, func(s *topoSnap) *router.Region { return one(s.byKey(key)) }, descRegion)
+	return pdCall(p, ctx, "getregion", hex.EncodeToString(rawOf(key)), opts, func(s *topoSnap) *router.Region { return one(s.byKey(key)) }, descRegion, keysOfRegion)
 }
 
 // GetPrevRegion implements pd.Client.
 func (p *simPD) GetPrevRegion(ctx context.Context, key []byte, opts ...opt.GetRegionOption) (*router.Region, error) {
-	return pdCall(p, ctx, "getprev", hex.EncodeToString(rawOf(key)), opts, func(s *topoSnap) *router.Region { return one(s.prevOf(key)) }, descRegion)
+	return pdCall(p, ctx, "getprev", hex.EncodeToString(rawOf(key)), opts, func(s *topoSnap) *router.Region { return one(s.prevOf(key)) }, descRegion, keysOfRegion)
 }
 
 // GetRegionByID implements pd.Client. (The real client sends it to the PD leader or a follower
 // alike; the region cache passes no follower option, so it is always answered from the current
 // topology here.)
 func (p *simPD) GetRegionByID(ctx context.Context, id uint64, opts ...opt.GetRegionOption) (*router.Region, error) {
-	return pdCall(p, ctx, "getbyid", fmt.Sprint(id), opts, func(s *topoSnap) *router.Region { return one(s.byID(id)) }, descRegion)
+	return pdCall(p, ctx, "getbyid", fmt.Sprint(id), opts, func(s *topoSnap) *router.Region { return one(s.byID(id)) }, descRegion, keysOfRegion)
 }
 
 // ScanRegions implements pd.Client.
@@ -626,7 +660,7 @@ func (p *simPD) ScanRegions(ctx context.Context, start, end []byte, limit int, o
 			out = append(out, r.toPD())
 		}
 		return out
-	}, descRegions)
+	}, descRegions, keysOfRegions)
 }
 
 // BatchScanRegions implements pd.Client: the regions covering the given sorted ranges, in key
@@ -663,7 +697,7 @@ func (p *simPD) BatchScanRegions(ctx context.Context, ranges []router.KeyRange, 
 			}
 		}
 		return out
-	}, descRegions)
+	}, descRegions, keysOfRegions)
 }
 
 // ---------------------------------------------------------------------------------------------
@@ -704,8 +738,14 @@ func (c *simClient) SendRequest(ctx context.Context, addr string, req *tikvrpc.R
 		return nil, errDown
 	default:
 	}
-	tikvrpc.AttachContext(req, req.Context)
-	snap := *req
+	// the RPC client of the library encodes the request and decodes the response with the API
+	// codec (region errors carry region borders in the store's encoded form)
+	enc, cerr := w.codec.EncodeRequest(req)
+	if cerr != nil {
+		return nil, cerr
+	}
+	tikvrpc.AttachContext(enc, enc.Context)
+	snap := *enc
 	id := fmt.Sprintf("rpc:%s/%s/r%d/%x", req.Type, addr, req.Context.GetRegionId(), reqKey(req))
 	key := fmt.Sprintf("%s#%d", id, w.sim.Occ(id))
 	ch := make(chan rpcRes, 1)
@@ -755,7 +795,10 @@ func (c *simClient) SendRequest(ctx context.Context, addr string, req *tikvrpc.R
 	}
 	select {
 	case r := <-ch:
-		return r.resp, r.err
+		if r.err != nil {
+			return nil, r.err
+		}
+		return w.codec.DecodeResponse(enc, r.resp)
 	case <-ctx.Done():
 		return nil, ctx.Err()
 	case <-timer:
